@@ -193,4 +193,40 @@ example : ((move (fuelFor sampleTree) sampleTree [1] [2]).map fun x => (lookup x
 example : ∀ op ∈ sampleProg, ∀ x ∈ op.targets, under x [2, 9] = false ∧ under [2, 9] x = false := by decide
 example : (run sampleTree sampleProg).map (fun t => lookup t [2, 9]) = some (some (.file 7)) := by decide
 
+/-! ### CopyToDirectory / CopyToFile (`Model.Fs.copyToDirectory`, `copyToFile`: what the driver runs for `cpd` / `cpf`) -/
+
+/-- "never alters or removes anything other than its destination": copy to directory -/
+theorem C06_copyToDirectory_frame (t : Tree) (s d : Path) (sl : Bool) (r : Res) (t' : Tree)
+    (h : copyToDirectory t s d sl = some (r, t')) : StepFrame t t' [d] := copyToDirectory_frame t s d sl r t' h
+
+/-- … and copy to file -/
+theorem C06_copyToFile_frame (t : Tree) (s d : Path) (sl : Bool) (r : Res) (t' : Tree)
+    (h : copyToFile t s d sl = some (r, t')) : StepFrame t t' [d] := copyToFile_frame t s d sl r t' h
+
+/-- "whatever its arguments, a call terminates": both return on the reference model -/
+theorem C06_copyToDirectory_returns (t : Tree) (s d : Path) (sl : Bool) : (copyToDirectory t s d sl).isSome = true := by
+  unfold copyToDirectory
+  have h1 := step_returns t (.mkdir d)
+  cases hm : step t (.mkdir d) with
+  | none => rw [hm] at h1; cases h1
+  | some rt =>
+    obtain ⟨r1, t1⟩ := rt
+    cases r1 <;> first | rfl | exact step_returns t1 (.cp s d sl)
+
+theorem C06_copyToFile_returns (t : Tree) (s d : Path) (sl : Bool) : (copyToFile t s d sl).isSome = true := by
+  unfold copyToFile
+  split
+  · rfl
+  · split
+    · split
+      · rfl
+      · exact step_returns t (.cp s d false)
+    · split
+      · rfl
+      · exact step_returns t (.cp s d false)
+
+/-- non-vacuity: a directory copied into a missing directory lands under its own name, as `cp -r src dir/` does -/
+example : (copyToDirectory [([1], .dir), ([1, 2], .file 5)] [1] [7] false).map (fun x => (x.1, lookup x.2 [7, 1, 2])) =
+    some (.ok, some (.file 5)) := by decide
+
 end GoUtils.Props.C06
